@@ -1,23 +1,32 @@
 /-
   Inductive invariant of the IterableList machine (`Algo/Iterable/Model.lean`), proved for every interleaving.
 
-  `SInv s` has five groups of clauses.
-  * order (`OrdInv`): the ghost relation `lt` is a strict total order on the linked nodes (`lk`), the head is its
+  `SInv s` has these groups of clauses.
+  * order (`OrdP`): the ghost relation `lt` is a strict total order on the linked nodes (`lk`), the head is its
     least and the tail its greatest element, `next a` is the immediate successor of every linked `a ≠ tail`,
     `tail.next = tail`, every linked node was allocated (`< ncnt`); nodes not yet allocated are blank.
     `lt` only grows (`step_lt_mono`): the chain is append-only.
-  * marks (`MarkInv`): the mark bit of a data word is set iff the ghost `mo` names the thread that set it; that
+  * marks (`bit`, `own`, `TInv.mcur`, `TInv.mprev`): the mark bit of a data word is set iff the ghost `mo` names the thread that set it; that
     thread is inside `link_data` holding this node as `pos.pCur` or `pos.pPrev`, and while it does the word is
     exactly `pos.pFound|1` resp. `pos.pPrevVal|1`: nobody else can change a marked word.
-  * positions (`PosInv`): the nodes a thread's local variables point to are linked and in chain order; between the
+  * positions (`TInv.wprev` … `TInv.pnext`): the nodes a thread's local variables point to are linked and in chain order; between the
     re-check `pPrev->next == pCur` under both marks and the thread's own CAS on `pPrev->next` the two nodes stay
     adjacent; a node under construction is private (allocated, not linked, referenced by one thread).
-  * elements (`ElemInv`): an element stored in a node has this node as its `home` (so it is stored in at most one
+  * elements (`ElemP`, `TInv.pused` …, `upend`): an element stored in a node has this node as its `home` (so it is stored in at most one
     node, and never moves: `home` is written once), is not retired; head and tail never hold an element; the
     element of a pending insert/update is owned by exactly one thread, is in no node except that thread's private
     node, and is not retired; disposed ⊆ retired ⊆ used.
-  * iterator (`IterInv`): `m_pNode` is a linked node; a validated guard (`hv`) holds an element that is not
-    disposed, and while the iterator is at rest that element's home is `m_pNode`.
+  * iterator: `m_pNode` is a linked node; a validated guard (`hv`) holds an element that is not disposed, and
+    while the iterator is at rest that element's home is `m_pNode`; outside the window between the hazard store and
+    the validating load a non-null guard is validated.
+  * keys (`kjob`, `kwalk`, `kpos`, `kctor`, `kupd`): keys of used element ids are immutable, and a thread's
+    `insert_position` brackets its key: `key pPrevVal < key < key pFound`, `pFound == null` only for the tail; on the
+    new-node path `pPrevVal == null` only for the head; `update` replaces an element of the same key.  (Used for
+    `Sorted.lean`: sortedness is preserved by everything except the re-use CAS.)
+
+  Organisation: clauses that do not mention program counters are predicates of the fields they read (`OrdP`,
+  `FreshP`, `ElemP`); everything a thread knows at a program counter is the structure `TInv s t pc`, uniform in `pc`
+  (every clause is guarded by a projection function of `pc`).
 
   `CInv` (iteration progress, on top of `SInv`): for every element `e` that has been in the list ever since the
   thread's `iter_begin` (`cand`), the number of times `e` was yielded is 1 if the iterator has passed `e`'s node and
@@ -50,6 +59,54 @@ theorem Purp.elem_ins (j : Job) : (Purp.ins j).elem = some j.e := rfl
 theorem Purp.elem_find : Purp.find.elem = none := rfl
 theorem Purp.elem_contains : Purp.contains.elem = none := rfl
 theorem Purp.elem_erase : Purp.erase.elem = none := rfl
+
+/-- The insert / update a walk belongs to. -/
+def Purp.job : Purp → Option Job
+  | .ins j => some j
+  | .fprev j _ => some j
+  | _ => none
+
+theorem Purp.job_fprev (j : Job) (p : Pos) : (Purp.fprev j p).job = some j := rfl
+theorem Purp.job_ins (j : Job) : (Purp.ins j).job = some j := rfl
+theorem Purp.job_find : Purp.find.job = none := rfl
+theorem Purp.job_contains : Purp.contains.job = none := rfl
+theorem Purp.job_erase : Purp.erase.job = none := rfl
+
+/-- The insert / update a program counter belongs to. -/
+def jobOf : PC → Option Job
+  | .wHead j => some j
+  | .wNext pu _ _ _ => pu.job
+  | .wTail pu _ _ _ _ => pu.job
+  | .wLd1 pu _ _ _ _ => pu.job
+  | .wLd2 pu _ _ _ _ _ => pu.job
+  | .updCas j _ _ => some j
+  | .lMarkCur j _ => some j
+  | .lMarkPrev j _ => some j
+  | .lChkNext j _ => some j
+  | .lReuse j _ => some j
+  | .lCtor1 j _ => some j
+  | .lCtor2 j _ _ => some j
+  | .lStNext j _ _ => some j
+  | .lCasNext j _ _ => some j
+  | .lRelPrev j _ _ => some j
+  | .lRelCur j _ _ => some j
+  | _ => none
+
+/-- The key a walk searches for, and the value it protected in `pPrev`. -/
+def walkKV : PC → Option (Int × Option Nat)
+  | .wNext _ k _ pv => some (k, pv)
+  | .wTail _ k _ pv _ => some (k, pv)
+  | .wLd1 _ k _ pv _ => some (k, pv)
+  | .wLd2 _ k _ pv _ _ => some (k, pv)
+  | _ => none
+
+/-- The `insert_position` of a thread on the new-node path of `link_data`. -/
+def ctorOf : PC → Option Pos
+  | .lCtor1 _ p => some p
+  | .lCtor2 _ p _ => some p
+  | .lStNext _ p _ => some p
+  | .lCasNext _ p _ => some p
+  | _ => none
 
 /-- The `insert_position` a thread holds (from the end of `inserting_search` to the end of `link_data`). -/
 def posOf : PC → Option Pos
@@ -226,6 +283,15 @@ structure TInv (s : St) (t : Tid) (pc : PC) : Prop where
   ea : ∀ e, pc = .eaCas e → s.hp t = some e ∧ s.hv t = true
   ld2 : ∀ w, pc = .itLd2 w → s.hp t = w.p
   hvok : ∀ e, s.hp t = some e → unval pc = false → s.hv t = true
+  -- keys (immutable once the element id is used): what the walk has established about its position
+  kjob : ∀ j, jobOf pc = some j → s.used j.e = true ∧ s.key j.e = j.k
+  kwalk : ∀ j k pv, jobOf pc = some j → walkKV pc = some (k, pv) →
+    k = j.k ∧ ∀ v, pv = some v → s.used v = true ∧ s.key v < j.k
+  kpos : ∀ j p, jobOf pc = some j → posOf pc = some p →
+    (∀ v, p.pv = some v → s.used v = true ∧ s.key v < j.k) ∧
+    (∀ f, p.found = some f → s.used f = true ∧ j.k < s.key f) ∧ (p.found = none → p.cur = 2)
+  kctor : ∀ p, ctorOf pc = some p → p.pv = none → p.prev = 1
+  kupd : ∀ j cur e, pc = .updCas j cur e → s.used e = true ∧ s.key e = j.k
 
 structure SInv (s : St) : Prop where
   ord : OrdP s.lk s.lt s.next s.ncnt
@@ -240,7 +306,7 @@ structure SInv (s : St) : Prop where
 /-! ### Initial state -/
 
 theorem tinv_idle_init (n : Nat) (t : Tid) : TInv (init n) t .idle := by
-  constructor <;> simp [init, wPrev, wCur, wInner, posOf, lpos, ppos, adjOf, priv, pend, casNode, unval]
+  constructor <;> simp [init, wPrev, wCur, wInner, posOf, lpos, ppos, adjOf, priv, pend, casNode, unval, jobOf, walkKV, ctorOf]
 
 theorem sinv_init (n : Nat) : SInv (init n) := by
   refine ⟨?_, ?_, ?_, ?_, ?_, ?_, ?_, ?_⟩
